@@ -201,6 +201,7 @@ func registerStubs(e *Engine) {
 	registerNumStubs(e)
 	registerProtoStubs(e)
 	registerHashStubs(e)
+	registerRoaringStubs(e)
 
 	// ---- fmt ----
 	e.reg("fmt.Sprintf", func(fr *frame, args []value) value { return fr.ex.sprintf(fr, args[0], args[1].([]value)) })
